@@ -37,7 +37,7 @@ FileAt(p) == { n \in DOMAIN Files : Files[n].path = p }
 ImportOK(f, imp) ==
   /\ WellFormedSpec(imp.spec)
   /\ (R.esm => EndsWith(imp.spec, JsExt))
-  /\ LET target == Resolve(Front(f.path), imp.spec, R.esm) IN
+  /\ LET target == ResolveX(Front(f.path), imp.spec, R.esm) IN
      /\ ~IsErr(target)
      /\ target # f.path                                       \* never from itself
      /\ \E n \in FileAt(target) : \A k \in DOMAIN imp.names : imp.names[k] \in DeclNames(Files[n])
